@@ -35,6 +35,10 @@ fn main() {
         // child side of the first-use workloads of C16
         std::process::exit(props::c16::child(args.get(3).map(String::as_str).unwrap_or("")));
     }
+    if id == "C03" && mode == "child" {
+        // child side of the cyclic-import catalogue of C03
+        std::process::exit(props::c03::child(args.get(3).map(String::as_str).unwrap_or("")));
+    }
     if id == "C18" && mode == "child" {
         // child side of the stdout fault states of C18
         std::process::exit(props::c18::child(args.get(3).map(String::as_str).unwrap_or("")));
